@@ -209,7 +209,7 @@ func VH07a_history() {
 		}
 	}
 	verif.Reach("done")
-	sock.Close()
+	vp.CloseCensus(sock, "C10/surveyor/after-history")
 }
 
 // VH07b_fanout: every connected respondent is sent each survey, queue space
@@ -250,7 +250,7 @@ func VH07b_fanout() {
 		verif.Assert(len(rs[stalled].Sent) == 0, lab+"/stalled-respondent-log")
 	}
 	verif.Reach("fanout-checked")
-	sock.Close()
+	vp.CloseCensus(sock, "C10/surveyor/after-history")
 }
 
 // VH07c_idseed: the id counter of REQ / SURVEYOR starts at an arbitrary 32-bit
@@ -336,7 +336,7 @@ func VH07c_idseed() {
 		}
 	}
 	verif.Reach("idseed-done")
-	sock.Close()
+	vp.CloseCensus(sock, "C10/surveyor/after-history")
 }
 
 // VH07d_late_response: directed family "survey A ended in way W, then a
@@ -461,7 +461,7 @@ func VH07d_late_response() {
 	verif.Quiesce()
 	verif.Assert(g4.Done() && e4 == mangos.ErrProtoState, lab+"/response-after-expiry-delivered")
 	verif.Reach("late-response-checked")
-	sock.Close()
+	vp.CloseCensus(sock, "C10/surveyor/after-history")
 }
 
 type brec struct {
@@ -654,7 +654,7 @@ func VH07e_burst() {
 	verif.Quiesce()
 	verif.Assert(!gx.Done(), lab+"/invented-or-stale-response-delivered")
 	verif.Reach("burst-epilogue")
-	sock.Close()
+	vp.CloseCensus(sock, "C10/surveyor/after-history")
 }
 
 // VH07f_chain: R surveys in a row on one socket or context (R = 1..6, every
@@ -731,7 +731,7 @@ func VH07f_chain() {
 	verif.Assert(g2.Done() && e2 == mangos.ErrProtoState, lab+"/late-response-delivered-after-the-survey-expired")
 	verif.Assert(verif.PendingCallbackTimers() == 0, lab+"/expiry-timer-left-behind")
 	verif.Reach("chain-expired")
-	sock.Close()
+	vp.CloseCensus(sock, "C10/surveyor/after-history")
 }
 
 // VH07g_many_contexts: M (5) contexts of one SURVEYOR socket each with a survey
@@ -826,7 +826,7 @@ func VH07g_many_contexts() {
 		verif.Assert(!g2.Done(), lab+"/context-got-a-second-response")
 	}
 	verif.Reach("many-contexts-surveyed")
-	sock.Close()
+	vp.CloseCensus(sock, "C10/surveyor/after-history")
 }
 
 // VH07h_endless: SURVEY-TIME 0 - the survey never expires - combined with what
@@ -921,5 +921,5 @@ func VH07h_endless() {
 	}
 	verif.Assert(verif.PendingCallbackTimers() == 0, lab+"/expiry-timer-left-behind")
 	verif.Reach("endless-checked")
-	sock.Close()
+	vp.CloseCensus(sock, "C10/surveyor/after-history")
 }
